@@ -33,8 +33,8 @@ PROP = dict(
         "where Go also rejects",
         "JSON: UnmarshalJSON is modelled for documents of the form \"<printable ASCII without quote and backslash>\" "
         "(no escapes, no surrounding whitespace) plus the malformed classes generated; encoding/json itself is not modelled",
-        "TL-B: the bit-level parser models addr_none and addr_std (with anycast); addr_extern / addr_var belong to the "
-        "TL-B codec properties (C03/C04)",
+        "TL-B: all four MsgAddress constructors are modelled at the bit level and proved equal to the TL-B slice's schema "
+        "spec (tlb_bits_eq_tlb_spec); a nil *BitString / nil AddrVar pointer (Go panics) is outside this model, see C03",
         "MatchAccountID is modelled on the first 8 address bytes read big-endian (the regenerated definition takes that "
         "uint64 as its input); the byte read itself is covered by the correspondence (addresses with dirty lower bytes)",
     ],
@@ -45,7 +45,7 @@ PROP = dict(
         "child_extends_prefix, convert_shard_ident (0..63), anycast_rewrite (depths 1..30) on 64/32-bit wrap-around "
         "arithmetic; raw_roundtrip (all int32 x 256-bit), raw_short_hex (zero-fill), human_roundtrip (int8 x 4 flag "
         "combinations x both alphabets), human/tlb_workchain_truncated, parse_dispatch, json_roundtrip, tl_roundtrip, "
-        "tlb_roundtrip, tlb_bits_roundtrip, adnl_base32_roundtrip, parse_address_flags (root package tongo.ParseAddress: id and "
+        "tlb_roundtrip, tlb_bits_roundtrip, tlb_bits_eq_tlb_spec + tlb_bits_roundtrip_all (all four constructors), adnl_base32_roundtrip, parse_address_flags (root package tongo.ParseAddress: id and "
         "bounce flag survive print->parse), and single_char_rejected (every 48-character valid "
         "string x 48 positions x 63 other digit values is rejected) via CRC linearity. Tie: the integer code of "
         "ton/shards.go, ton/block.go, the anycast arithmetic of ton/account.go, utils.Crc16/Crc16String step and the "
